@@ -300,5 +300,140 @@ theorem solve_solved_certificate (cs : Consts K) (sqrtF : K → K) (s : Solver K
       obtain ⟨c1, c2, c3, c4, c5, c6, c7⟩ := hc
       exact ⟨_, rfl, rfl, rfl, rfl, rfl, rfl, rfl, rfl, c1, c2, c3, c4, c5, c6⟩
 
+
+/-! ### Shape of the state (positive scalings, packed bounds) and C08's statement at the interface level
+
+`C08.results_wellformed` and `C08.solve_loop_in_cone` need, besides `Good`, that the scalings are positive and the bound
+packing strictly increasing. Both are invariants of the interface (`setup_shape`, `update_shape`; `solve` does not touch
+data or preconditioner), so `solve_result_wellformed` holds for every reachable state. -/
+
+open Piqp.C08
+
+/-- a packed side of the box: at most `n` slots, strictly increasing variable indices -/
+def Packed (b : BoxSide K n) : Prop := b.cnt ≤ n ∧ StrictIdx b.idx b.cnt
+
+/-- what the result well-formedness needs of a solver state besides `C04.Good`: positive scalings and packed bounds -/
+structure Shape (s : Solver K n p m) : Prop where
+  pos : Pos s.pre
+  lb : Packed s.data.lb
+  ub : Packed s.data.ub
+
+theorem packed_setupLb (cs : Consts K) (old : BoxSide K n) (ho : Packed old) (x : Option (Vec K n)) : Packed (setupLb cs old x) := by
+  cases x with
+  | none => exact ⟨Nat.zero_le _, fun a b _ hb => absurd hb (Nat.not_lt_zero _)⟩
+  | some v => exact ⟨(setupLb_packed cs old v).1, (setupLb_packed cs old v).2.1⟩
+
+theorem packed_setupUb (cs : Consts K) (old : BoxSide K n) (ho : Packed old) (x : Option (Vec K n)) : Packed (setupUb cs old x) := by
+  cases x with
+  | none => exact ⟨Nat.zero_le _, fun a b _ hb => absurd hb (Nat.not_lt_zero _)⟩
+  | some v => exact ⟨(setupUb_packed cs old v).1, (setupUb_packed cs old v).2.1⟩
+
+/-- `scale_data` does not touch the packing -/
+theorem scaled_packed {d0 d : Data K n p m} {pre : Precond K n p m} (hs : Scaled d0 d pre) (hl : Packed d0.lb) (hu : Packed d0.ub) :
+    Packed d.lb ∧ Packed d.ub := by
+  unfold Packed at *
+  rw [hs.lbcnt, hs.lbidx, hs.ubcnt, hs.ubidx]
+  exact ⟨hl, hu⟩
+
+theorem setup_shape (cs : Consts K) (sqrtF : K → K) (poison : K) (hg : PosConsts cs sqrtF) (hn : 0 < n)
+    (be : Backend) (pk : PrecKind) (hk : pk ≠ .identity) (st : Settings K) (prevInfo : Info K)
+    (P : Mat K n n) (c : Vec K n) (AT : Mat K n p) (b : Vec K p) (GT : Mat K n m) (h : Option (Vec K m))
+    (xlb xub : Option (Vec K n)) :
+    Shape (setupTyped cs sqrtF poison hn be pk st prevInfo P c AT b GT h xlb xub) := by
+  have hgood := setup_good cs sqrtF poison hg.good hn be pk hk st prevInfo P c AT b GT h xlb xub
+  have box0 : Packed ({ cnt := 0, idx := Vector.replicate n ⟨0, hn⟩, sc := Vec.const n 1, val := Vec.const n poison } : BoxSide K n) :=
+    ⟨Nat.zero_le _, fun a b _ hb => absurd hb (Nat.not_lt_zero _)⟩
+  have hl : Packed (setupRaw cs poison hn P c AT b GT h xlb xub).lb := by
+    unfold setupRaw; exact packed_setupLb cs _ box0 xlb
+  have hu : Packed (setupRaw cs poison hn P c AT b GT h xlb xub).ub := by
+    unfold setupRaw; exact packed_setupUb cs _ box0 xub
+  obtain ⟨pl, pu⟩ := scaled_packed hgood.scaled hl hu
+  refine ⟨?_, pl, pu⟩
+  unfold setupTyped
+  exact scaleData_pos pk hk sqrtF cs hg _ _ false _ _ (fun h => by cases h)
+
+theorem unscale_lb_shape (pk : PrecKind) (d : Data K n p m) (pre : Precond K n p m) :
+    (Precond.unscaleData pk d pre).lb.cnt = d.lb.cnt ∧ (Precond.unscaleData pk d pre).lb.idx = d.lb.idx ∧
+    (Precond.unscaleData pk d pre).ub.cnt = d.ub.cnt ∧ (Precond.unscaleData pk d pre).ub.idx = d.ub.idx := by
+  cases pk <;> exact ⟨rfl, rfl, rfl, rfl⟩
+
+theorem updateRaw_packed (cs : Consts K) (sparse : Bool) (maskP : Array Bool) (s : Solver K n p m)
+    (hl : Packed s.data.lb) (hu : Packed s.data.ub)
+    (P : Option (Mat K n n)) (c : Option (Vec K n)) (A : Option (Mat K p n)) (b : Option (Vec K p))
+    (G : Option (Mat K m n)) (h : Option (Vec K m)) (xlb xub : Option (Vec K n)) :
+    Packed (updateRaw cs sparse maskP s P c A b G h xlb xub).lb ∧ Packed (updateRaw cs sparse maskP s P c A b G h xlb xub).ub := by
+  obtain ⟨e1, e2, e3, e4⟩ := unscale_lb_shape s.pk s.data s.pre
+  have hl0 : Packed (Precond.unscaleData s.pk s.data s.pre).lb := by unfold Packed; rw [e1, e2]; exact hl
+  have hu0 : Packed (Precond.unscaleData s.pk s.data s.pre).ub := by unfold Packed; rw [e3, e4]; exact hu
+  have elb : (updateRaw cs sparse maskP s P c A b G h xlb xub).lb =
+      match xlb with | some _ => setupLb cs (Precond.unscaleData s.pk s.data s.pre).lb xlb | none => (Precond.unscaleData s.pk s.data s.pre).lb := by
+    unfold updateRaw
+    cases P <;> cases A <;> cases G <;> cases c <;> cases b <;> cases h <;> cases xlb <;> cases xub <;> (try cases sparse) <;> rfl
+  have eub : (updateRaw cs sparse maskP s P c A b G h xlb xub).ub =
+      match xub with | some _ => setupUb cs (Precond.unscaleData s.pk s.data s.pre).ub xub | none => (Precond.unscaleData s.pk s.data s.pre).ub := by
+    unfold updateRaw
+    cases P <;> cases A <;> cases G <;> cases c <;> cases b <;> cases h <;> cases xlb <;> cases xub <;> (try cases sparse) <;> rfl
+  rw [elb, eub]
+  constructor
+  · cases xlb with
+    | none => exact hl0
+    | some v => exact packed_setupLb cs _ hl0 (some v)
+  · cases xub with
+    | none => exact hu0
+    | some v => exact packed_setupUb cs _ hu0 (some v)
+
+theorem update_shape (cs : Consts K) (sqrtF : K → K) (hg : PosConsts cs sqrtF) (sparse : Bool) (maskP : Array Bool)
+    (s : Solver K n p m) (hk : s.pk ≠ .identity) (dprev : Data K n p m) (hgood : Good s dprev) (hsh : Shape s)
+    (P : Option (Mat K n n)) (c : Option (Vec K n)) (A : Option (Mat K p n)) (b : Option (Vec K p))
+    (G : Option (Mat K m n)) (h : Option (Vec K m)) (xlb xub : Option (Vec K n)) (reuse : Bool) :
+    Shape (updateTyped cs sqrtF sparse maskP s P c A b G h xlb xub reuse) := by
+  have hg2 := update_good cs sqrtF hg.good sparse maskP s hk dprev hgood P c A b G h xlb xub reuse
+  obtain ⟨pl0, pu0⟩ := updateRaw_packed cs sparse maskP s hsh.lb hsh.ub P c A b G h xlb xub
+  obtain ⟨pl, pu⟩ := scaled_packed hg2.scaled pl0 pu0
+  refine ⟨?_, pl, pu⟩
+  unfold updateTyped
+  exact scaleData_pos s.pk hk sqrtF cs hg _ _ reuse _ _ (fun _ => hsh.pos)
+
+/-- **C08 end to end.** Let `s` be any solver state reachable through the interface (`Good`, `Shape`: by `setup_good/shape`,
+    `update_good/shape`, `solve_good`). If `solve()` has valid settings and gets past the initial factorisation, then — whatever
+    the main loop returns (SOLVED, a verdict, MAX_ITER at any budget, NUMERICS) — the stored result vectors are well formed:
+    `s > 0`, `z > 0`; in original indexing `z_lb, z_ub` are exactly `0` or positive and `s_lb, s_ub` exactly `+∞` or positive. -/
+theorem solve_result_wellformed (cs : Consts K) (sqrtF : K → K) (s : Solver K n p m) (perm : Vector (Fin (n + p + m)) (n + p + m))
+    (d0 : Data K n p m) (hk : s.pk ≠ .identity) (hgood : Good s d0) (hsh : Shape s)
+    (h15 : 1 ≤ cs.c1_5) (h05 : 0 < cs.c0_5) (hτ0 : 0 < s.st.tau) (hτ1 : s.st.tau < 1) (heps : 0 ≤ cs.machEps)
+    (hv : s.st.verify = true)
+    (hok : (initLoopG s.st cs (realOps (Solver.env cs sqrtF s perm)) s.refineOn 0
+        ((solveStart cs sqrtF s perm).1, (solveStart cs sqrtF s perm).2.1) (solveStart cs sqrtF s perm).2.2).2.2.2.2 = true)
+    (hguard : m + s.data.lb.cnt + s.data.ub.cnt ≠ 0 →
+      0 < (mehrotraShift cs s.data (ipBeforeShift cs s (Solver.env cs sqrtF s perm) (solveStart cs sqrtF s perm).1
+        (initLoopG s.st cs (realOps (Solver.env cs sqrtF s perm)) s.refineOn 0
+          ((solveStart cs sqrtF s perm).1, (solveStart cs sqrtF s perm).2.1) (solveStart cs sqrtF s perm).2.2).2.2.1.2
+        (initLoopG s.st cs (realOps (Solver.env cs sqrtF s perm)) s.refineOn 0
+          ((solveStart cs sqrtF s perm).1, (solveStart cs sqrtF s perm).2.1) (solveStart cs sqrtF s perm).2.2).1)).2.2) :
+    let res := (solveTyped cs sqrtF s perm).1.w
+    (∀ t : Fin m, 0 < res.s[t]) ∧ (∀ t : Fin m, 0 < res.z[t]) ∧
+    (∀ j : Fin n, res.z_lb[j] = 0 ∨ 0 < res.z_lb[j]) ∧ (∀ j : Fin n, res.z_ub[j] = 0 ∨ 0 < res.z_ub[j]) ∧
+    (∀ j : Fin n, res.s_lb[j] = cs.posInf ∨ 0 < res.s_lb[j]) ∧ (∀ j : Fin n, res.s_ub[j] = cs.posInf ∨ 0 < res.s_ub[j]) := by
+  have hnl : s.pre.nlb = s.data.lb.cnt := by rw [hgood.scaled.nlb, hgood.scaled.lbcnt]
+  have hnu : s.pre.nub = s.data.ub.cnt := by rw [hgood.scaled.nub, hgood.scaled.ubcnt]
+  have hcone := solve_loop_in_cone cs sqrtF s perm (solveStart cs sqrtF s perm).1
+    (initLoopG s.st cs (realOps (Solver.env cs sqrtF s perm)) s.refineOn 0
+      ((solveStart cs sqrtF s perm).1, (solveStart cs sqrtF s perm).2.1) (solveStart cs sqrtF s perm).2.2).2.2.1.2
+    (initLoopG s.st cs (realOps (Solver.env cs sqrtF s perm)) s.refineOn 0
+      ((solveStart cs sqrtF s perm).1, (solveStart cs sqrtF s perm).2.1) (solveStart cs sqrtF s perm).2.2).2.2.2.1
+    (initLoopG s.st cs (realOps (Solver.env cs sqrtF s perm)) s.refineOn 0
+      ((solveStart cs sqrtF s perm).1, (solveStart cs sqrtF s perm).2.1) (solveStart cs sqrtF s perm).2.2).1
+    hsh.lb.1 hsh.ub.1 h15 h05 hτ0 hτ1 heps hguard
+  have hres := results_wellformed cs s.pk hk s.data s.pre hsh.pos hgood.inv hnl hnu hsh.lb.1 hsh.ub.1 hsh.lb.2 hsh.ub.2 _ hcone
+  unfold solveTyped
+  simp only [hv, Bool.not_true, Bool.false_eq_true, if_false]
+  have hok' : (!(initLoopG (Solver.env cs sqrtF s perm).st (Solver.env cs sqrtF s perm).cs (realOps (Solver.env cs sqrtF s perm)) s.refineOn 0
+        ((solveStart cs sqrtF s perm).1, (solveStart cs sqrtF s perm).2.1) (solveStart cs sqrtF s perm).2.2).2.2.2.2) = false := by
+    have : (initLoopG (Solver.env cs sqrtF s perm).st (Solver.env cs sqrtF s perm).cs (realOps (Solver.env cs sqrtF s perm)) s.refineOn 0
+        ((solveStart cs sqrtF s perm).1, (solveStart cs sqrtF s perm).2.1) (solveStart cs sqrtF s perm).2.2).2.2.2.2 = true := hok
+    rw [this]; rfl
+  simp only [hok', Bool.false_eq_true, if_false]
+  exact hres
+
 end coherence
 end Piqp.C04
